@@ -492,7 +492,24 @@ func RampHistory(r *rand.Rand, sig canon.Signal, nb, n int, highReuse bool) *His
 // stays constant until batch j*stagger and only then starts carrying unique values, so that the columns cross
 // one after the other: one schema evolution (a replaced IPC stream) every few batches, for dozens of batches.
 func WideHistory(sig canon.Signal, nb, n, stagger int) *History {
-	h := &History{Script: fmt.Sprintf("wide(n=%d,stagger=%d)", n, stagger), N: nb}
+	return WideHistoryOpt(sig, nb, n, stagger, false)
+}
+
+// WideHistoryOpt: with absentFirst, the optional string children of the nested structs (resource schema URL,
+// scope name / version / schema URL, status message, trace state, severity text, metric description / unit)
+// are ABSENT (empty, so that their column does not exist yet) until their field becomes active in a staggered
+// history, instead of carrying a constant: the dictionary column appears in an already established struct.
+func WideHistoryOpt(sig canon.Signal, nb, n, stagger int, absentFirst bool) *History {
+	h := &History{Script: fmt.Sprintf("wide(n=%d,stagger=%d,absentFirst=%v)", n, stagger, absentFirst), N: nb}
+	if !absentFirst {
+		h.Script = fmt.Sprintf("wide(n=%d,stagger=%d)", n, stagger)
+	}
+	ostr := func(format string, v int) string {
+		if absentFirst && v == 0 {
+			return ""
+		}
+		return fmt.Sprintf(format, v)
+	}
 	h.Gen = func(k int) Batch {
 		fld := 0
 		// u returns the unique value for the next field (or 0 while the field is not yet active)
@@ -510,13 +527,13 @@ func WideHistory(sig canon.Signal, nb, n, stagger int) *History {
 		res := func(r pcommon.Resource, u func() int) string {
 			r.Attributes().PutStr("host", fmt.Sprintf("h%d", u()))
 			r.SetDroppedAttributesCount(uint32(u()))
-			return fmt.Sprintf("https://r/%d", u())
+			return ostr("https://r/%d", u())
 		}
 		sco := func(s pcommon.InstrumentationScope, u func() int) string {
-			s.SetName(fmt.Sprintf("lib-%d", u()))
-			s.SetVersion(fmt.Sprintf("v%d", u()))
+			s.SetName(ostr("lib-%d", u()))
+			s.SetVersion(ostr("v%d", u()))
 			s.Attributes().PutInt("s", int64(u()))
-			return fmt.Sprintf("https://s/%d", u())
+			return ostr("https://s/%d", u())
 		}
 		attrs := func(m pcommon.Map, u func() int) {
 			m.PutStr(fmt.Sprintf("k%d", u()%300), fmt.Sprintf("v%d", u()))
@@ -544,7 +561,7 @@ func WideHistory(sig canon.Signal, nb, n, stagger int) *History {
 				s.SetSpanID(pcommon.SpanID{byte(x), byte(x >> 8), byte(x >> 16), 2})
 				x = u()
 				s.SetParentSpanID(pcommon.SpanID{byte(x), byte(x >> 8), byte(x >> 16), 3})
-				s.TraceState().FromRaw(fmt.Sprintf("ts=%d", u()))
+				s.TraceState().FromRaw(ostr("ts=%d", u()))
 				s.SetKind(ptrace.SpanKind(u() % 6))
 				s.SetStartTimestamp(pcommon.Timestamp(base + uint64(u())*1000))
 				s.SetEndTimestamp(s.StartTimestamp() + pcommon.Timestamp(u()*13))
@@ -552,7 +569,7 @@ func WideHistory(sig canon.Signal, nb, n, stagger int) *History {
 				s.SetDroppedEventsCount(uint32(u()))
 				s.SetDroppedLinksCount(uint32(u()))
 				s.Status().SetCode(ptrace.StatusCode(u() % 3))
-				s.Status().SetMessage(fmt.Sprintf("msg-%d", u()))
+				s.Status().SetMessage(ostr("msg-%d", u()))
 				attrs(s.Attributes(), u)
 				ev := s.Events().AppendEmpty()
 				ev.SetName(fmt.Sprintf("ev-%d", u()))
@@ -564,7 +581,7 @@ func WideHistory(sig canon.Signal, nb, n, stagger int) *History {
 				l.SetTraceID(pcommon.TraceID{byte(x), byte(x >> 8), byte(x >> 16), 7})
 				x = u()
 				l.SetSpanID(pcommon.SpanID{byte(x), byte(x >> 8), byte(x >> 16), 8})
-				l.TraceState().FromRaw(fmt.Sprintf("lts=%d", u()))
+				l.TraceState().FromRaw(ostr("lts=%d", u()))
 				l.SetDroppedAttributesCount(uint32(u()))
 				attrs(l.Attributes(), u)
 			}
@@ -589,7 +606,7 @@ func WideHistory(sig canon.Signal, nb, n, stagger int) *History {
 				default:
 					l.Body().SetEmptyMap().PutInt("m", int64(u()))
 				}
-				l.SetSeverityText(fmt.Sprintf("sev-%d", u()))
+				l.SetSeverityText(ostr("sev-%d", u()))
 				l.SetSeverityNumber(plog.SeverityNumber(u() % 25))
 				x := u()
 				l.SetTraceID(pcommon.TraceID{byte(x), byte(x >> 8), byte(x >> 16), 1})
@@ -613,8 +630,8 @@ func WideHistory(sig canon.Signal, nb, n, stagger int) *History {
 				sm.SetSchemaUrl(sco(sm.Scope(), u))
 				m := sm.Metrics().AppendEmpty()
 				m.SetName(fmt.Sprintf("metric-%d", u()))
-				m.SetDescription(fmt.Sprintf("desc-%d", u()))
-				m.SetUnit(fmt.Sprintf("u%d", u()))
+				m.SetDescription(ostr("desc-%d", u()))
+				m.SetUnit(ostr("u%d", u()))
 				ex := func(es pmetric.ExemplarSlice) {
 					e := es.AppendEmpty()
 					x := u()
